@@ -1,0 +1,36 @@
+//! Verification hook (only compiled with `--cfg logos_verif`).
+//!
+//! A thread-local sink of JSON lines. It is off by default, so the hook does
+//! nothing when the crate runs inside rustc as a proc-macro dependency.
+//! A harness calls [capture] around [crate::generate] to obtain the graph
+//! snapshots taken while the derive ran on the current thread.
+
+use std::cell::RefCell;
+
+thread_local! {
+    static SINK: RefCell<Option<Vec<String>>> = const { RefCell::new(None) };
+}
+
+/// True if the current thread is recording.
+pub fn enabled() -> bool {
+    SINK.with(|s| s.borrow().is_some())
+}
+
+/// Append one JSON line to the sink (no-op when recording is off).
+pub fn push(line: String) {
+    SINK.with(|s| {
+        if let Some(v) = s.borrow_mut().as_mut() {
+            v.push(line);
+        }
+    })
+}
+
+/// Start recording on the current thread.
+pub fn start() {
+    SINK.with(|s| *s.borrow_mut() = Some(Vec::new()));
+}
+
+/// Stop recording on the current thread and return what was recorded.
+pub fn finish() -> Vec<String> {
+    SINK.with(|s| s.borrow_mut().take().unwrap_or_default())
+}
